@@ -283,6 +283,8 @@ func (c *MJAccordionElementComponent) Render(w io.StringWriter) error {
 		AddStyle(constants.CSSFontSize, fontSize)
 
 	if fontFamily != "" {
+		// the font is used in the body, so the head has to import it
+		c.TrackFontFamily(fontFamily)
 		labelTag.AddStyle(constants.CSSFontFamily, fontFamily)
 	}
 
